@@ -3,6 +3,7 @@ package main
 import (
 	"encoding/json"
 	"fmt"
+	"math"
 	"os"
 	"reflect"
 	"runtime"
@@ -16,6 +17,14 @@ import (
 )
 
 const eps = 1e-8 // below the spacing (1) of the value domain
+
+// epsOf: the epsilon of an Equals case (records with an epsilon dimension give it in units of 2^scale)
+func epsOf(rc *rec) float64 {
+	if rc.Epsu != 0 {
+		return math.Ldexp(float64(rc.Epsu), rc.Scale)
+	}
+	return eps
+}
 
 // inst is one instantiation of a record: element type x operand representations
 type inst struct {
@@ -43,10 +52,10 @@ func (in inst) build(rc *rec) operands {
 	t := in.t
 	if rc.R.K != "-" && rc.Op != "As" && rc.Op != "New" {
 		constRecv := in.constOp && rc.Op == "Equals"
-		o.r = t.build(rc.R.K, rc.R.Rows, rc.R.Cols, rc.R.C, rc.R.St, constRecv)
+		o.r = t.buildS(rc.R.K, rc.R.Rows, rc.R.Cols, rc.R.C, nil, rc.R.St, constRecv, rc.Scale)
 	}
 	if in.ak != "-" {
-		o.a = t.buildX(in.ak, rc.A.Rows, rc.A.Cols, rc.A.C, rc.A.F, rc.A.Reps[in.ak], in.constOp)
+		o.a = t.buildS(in.ak, rc.A.Rows, rc.A.Cols, rc.A.C, rc.A.F, rc.A.Reps[in.ak], in.constOp, rc.Scale)
 	}
 	if in.bk != "-" {
 		o.b = t.buildX(in.bk, rc.B.Rows, rc.B.Cols, rc.B.C, rc.B.F, rc.B.Reps[in.bk], in.constOp)
@@ -119,9 +128,9 @@ func runGeneric(in inst, rc *rec, o operands) (out outcome) {
 			o.r.mat.SetIdentity()
 		case "Equals":
 			if isVecCase(rc) {
-				out.boolRet = o.r.constVec().Equals(o.a.constVec(), eps)
+				out.boolRet = o.r.constVec().Equals(o.a.constVec(), epsOf(rc))
 			} else {
-				out.boolRet = o.r.mat.Equals(o.a.mat, eps)
+				out.boolRet = o.r.mat.Equals(o.a.mat, epsOf(rc))
 			}
 		case "VdotV":
 			sc := NullScalar(t.st)
@@ -311,7 +320,7 @@ func runConcrete(in inst, rc *rec, o operands) (out outcome) {
 	case "Set":
 		args = []interface{}{o.a.obj()}
 	case "Equals":
-		args = []interface{}{o.a.obj(), eps}
+		args = []interface{}{o.a.obj(), epsOf(rc)}
 	default:
 		args = []interface{}{}
 	}
@@ -569,6 +578,9 @@ func containerCase(rc *rec, line []byte, mode string, flt *only, out *vh.Out, st
 		if rc.Sp == "fs" && t.class == "int" {
 			continue // Inf, NaN and -0 exist in the floating point and magic element types only
 		}
+		if rc.Scale != 0 && t.class == "int" {
+			continue // fractions of epsilon exist in the floating point and magic element types only
+		}
 		if rc.Op == "Ctor" && strings.Contains(rc.Ctor, "Magic") && t.class != "real" {
 			continue // the Magic constructors exist for the magic element types only
 		}
@@ -639,6 +651,9 @@ func containerCase(rc *rec, line []byte, mode string, flt *only, out *vh.Out, st
 	st.cases += ncase
 	st.concrete += nconc
 	st.byOp[rc.Op] += ncase
+	if rc.Epsu != 0 {
+		st.byOp["Equals:eps"] += ncase
+	}
 	if rc.Op == "Ctor" {
 		st.byOp["Ctor:"+rc.Ctor] += ncase
 	}
